@@ -152,7 +152,7 @@ func (c *specCtx) eval(e ast.Expr) specVal {
 			}
 		}
 		base := c.eval(x.X)
-		return c.selectField(base, x.Sel.Name)
+		return c.closedFacts(c.selectField(base, x.Sel.Name))
 	case *ast.StarExpr:
 		base := c.eval(x.X)
 		pt, ok := base.typ.Underlying().(*types.Pointer)
@@ -184,7 +184,7 @@ func (c *specCtx) eval(e ast.Expr) specVal {
 		switch t := base.typ.Underlying().(type) {
 		case *types.Slice:
 			ev := vc.elemSV(t.Elem())
-			return specVal{term: fmt.Sprintf("(select (select %s (s_arr %s)) (+ (s_off %s) %s))", vc.get(c.st, ev), base.term, base.term, idx.term), typ: t.Elem()}
+			return c.closedFacts(specVal{term: fmt.Sprintf("(select (select %s (s_arr %s)) (ix (s_off %s) %s))", vc.get(c.st, ev), base.term, base.term, idx.term), typ: t.Elem()})
 		case *types.Map:
 			_, val := vc.mapSV(t)
 			return specVal{term: fmt.Sprintf("(select (select %s %s) %s)", vc.get(c.st, val), base.term, idx.term), typ: t.Elem()}
@@ -219,6 +219,27 @@ func (c *specCtx) eval(e ast.Expr) specVal {
 	}
 	fail("unsupported spec expression %T", e)
 	return specVal{}
+}
+
+// closedFacts adds the type invariant of a heap read made by a specification, when the read term
+// is closed (mentions no quantified variable).
+func (c *specCtx) closedFacts(v specVal) specVal {
+	if v.typ == nil || strings.Contains(v.term, "q_") {
+		return v
+	}
+	switch v.typ.Underlying().(type) {
+	case *types.Slice, *types.Interface:
+		t := c.vc.def(c.vc.sortOfVal(v), v.term, "sr")
+		c.vc.typeFacts(c.st, t, v.typ)
+		v.term = t
+	case *types.Basic:
+		if _, _, ok := intRange(v.typ); ok || isStringType(v.typ) {
+			t := c.vc.def(c.vc.sortOfVal(v), v.term, "sr")
+			c.vc.typeFacts(c.st, t, v.typ)
+			v.term = t
+		}
+	}
+	return v
 }
 
 func (c *specCtx) lookupName(name string) (specVal, bool) {
@@ -625,6 +646,10 @@ func (c *specCtx) call(x *ast.CallExpr) specVal {
 		return n.eval(args[0])
 	case "now":
 		return c.eval(args[0])
+	case "atlock":
+		n := c.with(vc.lockState(c.st))
+		n.block = nil
+		return n.eval(args[0])
 	case "imp":
 		a, b := c.eval(args[0]), c.eval(args[1])
 		return specVal{term: fmt.Sprintf("(=> %s %s)", a.term, b.term), typ: tBool}
